@@ -1687,6 +1687,27 @@ def shared_mutable_inventory(ctx):
                     mutated.add(nm)
             if isinstance(n, ast.Global):
                 rebound.update(n.names)
+        # one level of aliasing inside a function: local = <shared name> ; local is then mutated
+        for fn_ in ast.walk(tree):
+            if not isinstance(fn_, (ast.FunctionDef, ast.AsyncFunctionDef)):
+                continue
+            alias = {}
+            for n in ast.walk(fn_):
+                if isinstance(n, ast.Assign) and len(n.targets) == 1 and isinstance(n.targets[0], ast.Name):
+                    v = n.value
+                    src_nm = v.id if isinstance(v, ast.Name) else (v.attr if isinstance(v, ast.Attribute) else None)
+                    if src_nm:
+                        alias[n.targets[0].id] = src_nm
+            for n in ast.walk(fn_):
+                b = None
+                if isinstance(n, ast.Call) and isinstance(n.func, ast.Attribute) and n.func.attr in MUT_METHODS:
+                    b = n.func.value
+                elif isinstance(n, (ast.Assign, ast.AugAssign, ast.Delete)):
+                    for t in (n.targets if isinstance(n, (ast.Assign, ast.Delete)) else [n.target]):
+                        if isinstance(t, ast.Subscript):
+                            b = t.value
+                if isinstance(b, ast.Name) and b.id in alias:
+                    mutated.add(alias[b.id])
 
     def class_is_immutable(cname):
         rel, c = classes[cname]
@@ -2999,6 +3020,139 @@ def lockstep_generator_checks(ctx, docs, base):
     ctx.obligation("lockstep-subprocess-completed", finished or (hung and last is not None), (out[-300:] if not finished else ""))
 
 
+def import_whole_library():
+    """import every module of the library (the extractor modules are imported lazily by the router) so that the state
+    they have right after import - before anything was extracted - can be recorded"""
+    root, files = _library_files()
+    for p in files:
+        rel = p.relative_to(root)
+        if rel.name in ("run_test_setup.py", "cli.py", "__main__.py"):
+            continue
+        mod = "sharepoint2text." + str(rel)[:-3].replace("/", ".")
+        if mod.endswith(".__init__"):
+            mod = mod[: -len(".__init__")]
+        try:
+            importlib.import_module(mod)
+        except Exception:  # noqa
+            pass
+
+
+def first_use_checks(ctx, world, tmproot, aes0, docs, base):
+    """FIRST use of every format in this process, one small document per extractor module and suffix, with the
+    residue snapshot (taken right after importing the whole library, before anything was extracted) compared after
+    each: module-level / class-level state that only changes on first use (lazily built tables, registries) shows here
+    and is attributed to the document that triggered it."""
+    from sharepoint2text.parsing import router as _router
+    import_whole_library()
+    mon = ResidueMonitor(ctx, world, tmproot, aes0)
+    fam = {}
+    for d in sorted((x for x in docs if "/resources/" in x and "password" not in x), key=lambda q: os.path.getsize(q)):
+        if base.get(d, "").startswith("ok:") and os.path.getsize(d) < 400_000:
+            try:
+                fam.setdefault((_router.get_extractor(d).__module__, Path(d).suffix), d)
+            except Exception:  # noqa
+                pass
+    for d in fam.values():
+        got = extract_digest(d)
+        mon.step(f"first {Path(d).suffix} document of the process ({Path(d).name})", got, {"document": d, "first_use": True},
+                 key=f"first-use:{Path(d).suffix}")
+        if got != base[d]:
+            ctx.finding(f"history-dependent:{Path(d).name}", f"{Path(d).name} extracted first in this process gives {got}, isolated "
+                        f"baseline {base[d]}", {"document": d, "got": got, "baseline": base[d]})
+        ctx.case(("first-use", Path(d).name), True, kind="first-use:sequential")
+    return list(fam.values())
+
+
+_FIRST_USE_SNIPPET = r"""
+import sys, json, logging, threading, time
+logging.disable(logging.CRITICAL)
+sys.path.insert(0, '/verif/tools'); sys.path.insert(0, '/verif/tools/props')
+import c15, sharepoint2text
+job = json.loads(sys.stdin.read())
+docs, n, slow0 = job['docs'], job['threads'], job['slow_thread0']
+out = [None] * n
+bar = threading.Barrier(n)
+def tracer(frame, event, arg):
+    # thread 0 gives the processor away at every line of library code: whatever it initialises lazily on first use
+    # is observed half-built by the other threads if it is built in place
+    if 'sharepoint2text' in frame.f_code.co_filename and 'tests' not in frame.f_code.co_filename:
+        def local(frame, event, arg):
+            if event == 'line':
+                time.sleep(0)
+            return local
+        return local
+    return None
+def work(i):
+    if slow0 and i == 0:
+        sys.settrace(tracer)
+    bar.wait()
+    try:
+        out[i] = c15.extract_digest(docs[i % len(docs)])
+    finally:
+        sys.settrace(None)
+sys.setswitchinterval(1e-6)
+ths = [threading.Thread(target=work, args=(i,), daemon=True) for i in range(n)]
+[t.start() for t in ths]
+[t.join(120) for t in ths]
+print('RESULT' + json.dumps(out))
+"""
+
+
+def first_use_concurrency_checks(ctx, docs, base):
+    """Race on FIRST use: in a fresh interpreter (nothing of that format extracted yet) N threads behind a barrier
+    extract documents of ONE format at switch interval 1e-6 - once plainly, once with thread 0 yielding the processor at
+    every line of library code; every thread's digest must equal the isolated baseline."""
+    from concurrent.futures import ThreadPoolExecutor
+    from sharepoint2text.parsing import router as _router
+    byfmt = {}
+    for d in sorted((x for x in docs if "/resources/" in x and "password" not in x), key=lambda q: os.path.getsize(q)):
+        if base.get(d, "").startswith("ok:") and os.path.getsize(d) < ctx.n(300_000, 1_000_000):
+            try:
+                byfmt.setdefault(_router.get_extractor(d).__module__.split(".")[-1], []).append(d)
+            except Exception:  # noqa
+                pass
+    jobs = []
+    for fmt, ds in sorted(byfmt.items()):
+        ds = ds[:3]
+        for slow in (True, False):
+            jobs.append((fmt, slow, {"docs": ds, "threads": ctx.n(4, 8), "slow_thread0": slow}))
+
+    def one(j):
+        fmt, slow, job = j
+        try:
+            pr = subprocess.run([sys.executable, "-c", _FIRST_USE_SNIPPET], input=json.dumps(job), text=True, capture_output=True,
+                                timeout=240, env=dict(os.environ))
+            m = re.search(r"RESULT(.*)", pr.stdout)
+            return fmt, slow, job, (json.loads(m.group(1)) if m else None), pr.stderr[-200:]
+        except subprocess.TimeoutExpired:
+            return fmt, slow, job, "timeout", ""
+    with ThreadPoolExecutor(max_workers=6) as ex:
+        results = list(ex.map(one, jobs))
+    broken, seen = [], set()
+    for fmt, slow, job, res, err in results:
+        if res is None:
+            broken.append(f"{fmt}: {err}")
+            continue
+        ctx.case(("first-use-threads", fmt, slow), True, kind="first-use:concurrent")
+        if res == "timeout":
+            if fmt not in seen:
+                seen.add(fmt)
+                ctx.finding(f"concurrent-interference:first-use-hang:{fmt}", f"{job['threads']} threads extracting {fmt} documents as the first "
+                            "use in a fresh process do not finish within 240 s", job)
+            continue
+        for i, got in enumerate(res):
+            d = job["docs"][i % len(job["docs"])]
+            if got != base.get(d) and fmt not in seen:
+                seen.add(fmt)
+                ctx.finding(f"concurrent-interference:first-use:{fmt}",
+                            f"fresh process, {job['threads']} threads behind a barrier extracting {fmt} documents for the first time"
+                            f"{' (thread 0 yielding at every library line)' if slow else ''}: thread {i} gets {got} for {Path(d).name}, isolated "
+                            f"baseline {base.get(d)}",
+                            {"fresh_process": True, "documents": job["docs"], "threads": job["threads"], "thread0_yields_per_line": slow,
+                             "switchinterval": 1e-6, "results": res, "baselines": [base.get(x) for x in job["docs"]]})
+    ctx.obligation("first-use-subprocesses-completed", not broken, "; ".join(broken[:3]))
+
+
 def write_damaged_files(fx, tmpdocs):
     """two failing variants (late failures preferred) of the smallest fixture of every suffix, as files"""
     out, seen = [], set()
@@ -3112,6 +3266,10 @@ def _run(ctx, tmproot, tmpdocs):
 
     tm = ctx.extra.setdefault("phase_s", {})
     t1 = time.time()
+    # nothing has been extracted in this process so far (baselines and generated documents come from subprocesses)
+    first_use_checks(ctx, PatchWorld(pe, sk if sk is not None else Skeleton()), tmproot, aes0, docs, base)
+    first_use_concurrency_checks(ctx, docs, base)
+    tm["first-use"] = round(time.time() - t1, 1); t1 = time.time()
     unknown_sites = global_mutation_inventory(ctx)
     shared_mutable_inventory(ctx)
     yield_under_lock_inventory(ctx)
